@@ -86,6 +86,30 @@ theorem no_device_xml_is_error (o : Ops σ) (dev : Nat → Nat → R Bytes) (tab
   simp only [Res.bind_ok]
   rw [scanP_all_none dev first n 0 none (fun j _ hj => h2 j (by omega))]
   rfl
+/-- **selection is complete and deterministic**: if the table is readable as advertised, every
+header is readable with a valid file type, and `c` is the first maximal device-XML candidate,
+then the retrieval is exactly the retrieval of `c`'s file (`Ok` iff that succeeds, with the same
+text or error). Together with `selects_newest`: `genapi` returns `Ok t` iff the device is
+well-formed in this sense and `t` is the text of that entry. -/
+theorem retrieves_exactly_newest (o : Ops σ) (dev : Nat → Nat → R Bytes) (table n first i : Nat)
+    (c : Candidate)
+    (h1 : entriesP dev table = .ok (n, first))
+    (hall : ∀ j, j < n → ∃ hj, header dev (entAddr first j) = .ok hj)
+    (hi : i < n) (hc : header dev (entAddr first i) = .ok (some c))
+    (hmax : ∀ j cj, j < n → header dev (entAddr first j) = .ok (some cj) → cj.version.le c.version = true)
+    (hfirst : ∀ j cj, j < i → header dev (entAddr first j) = .ok (some cj) → c.version.le cj.version = false) :
+    fetchFrom o dev table = fetchSelected o dev c := by
+  obtain ⟨r, hr⟩ := scanP_ok_of_headers dev first n 0 none (fun j _ hj => hall j (by omega))
+  have hinv : Newest dev first 0 none := fun j hj => by omega
+  obtain ⟨g1, _⟩ := scanP_newest dev first n 0 none r hinv hr
+  rw [Nat.zero_add] at g1
+  have hN : Newest dev first n (some c) := ⟨i, hi, hc, hmax, hfirst⟩
+  have := g1.unique hN
+  subst this
+  unfold fetchFrom
+  rw [h1]
+  simp only [Res.bind_ok, hr]
+
 /-- The version decoding the selection compares: all 16 bits of the subminor count
 (`1.0.256` is newer than `1.0.255`). -/
 theorem version_order_full_width :
